@@ -399,7 +399,7 @@ def run(ctx, replay=None):
         return
     run_corpus(ctx, exe, stats, tmo)
     player_tie(ctx, exe, stats)
-    total = ctx.budget(28, 1600)
+    total = ctx.budget(24, 1600)
     if not proved:
         total *= 4
     scale = os.environ.get("VERIF_BUDGET_SCALE")
